@@ -56,6 +56,8 @@ def run(ck):
               f"{t}: write_into emits {sorted(show_seq(x) for x in pw)}; read_from consumes the same token sequences", loc=r.loc(),
               detail=None if ok else f"writer: {sorted(show_seq(x) for x in pw)}  reader: {sorted(show_seq(x) for x in pr)}")
     accepted_sets(ck, prog)
+    from . import width
+    width.run(ck, prog)
     ck.control("u16 and u32 length prefixes are different tokens", ("fixed", 2, "") != ("fixed", 4, ""))
 
 
